@@ -22,14 +22,15 @@ from ..tlc import run_tlc, require_ok, write_cfg
 APP_NAMES = {'a1': 'shop', 'a2': 'blog'}
 
 
-def make_histories(maxver, variant=0, groups=True):
+def make_histories(maxver, variant=0, groups=True, a2_variant=None):
     """a1 gains model Tag at version 1 (new model, no evolution); its evolution 2
     targets only that model (IntroA1 / GrpA1 of the specification)."""
     return {
         'a1': chain_history('shop', maxver, variant=variant,
                             intro_at=1 if groups else None,
                             g2_evolutions=(2,) if groups else ()),
-        'a2': chain_history('blog', maxver, variant=variant + 1),
+        'a2': chain_history('blog', maxver,
+                            variant=variant + 1 if a2_variant is None else a2_variant),
     }
 
 
